@@ -3,4 +3,5 @@ pub mod progen;
 pub mod syngen;
 pub mod datagen;
 pub mod fsgen;
+pub mod scopegen;
 pub mod c17gen;
